@@ -43,7 +43,7 @@ def check(tier='quick', seed=0):
     cfgs = [(3, False), (2, True)] if tier == 'quick' else [(2, False), (3, False), (4, False), (1, True), (3, True)]
     for workers, files in cfgs:
         cases += 1
-        td = tempfile.mkdtemp(prefix='c11_', dir=None) if files else None
+        td = tempfile.mkdtemp(prefix='c11.run.', dir=None) if files else None      # a dot in the directory name is legitimate
         try:
             got = run(survey, model, grids, workers, td)
         except Exception as e:
